@@ -1,15 +1,13 @@
 SPECIFICATION Spec
 CONSTANTS
   Circs <- C2
-  Streams <- S2
-  Conns <- K2
-  Ports <- P2
-  MaxSteps = 9
-  MaxSubs = 0
+  Streams <- S1
+  Conns <- K0
+  Ports <- P1
+  MaxSteps = 7
+  MaxSubs = 3
 INVARIANT TypeOK
 INVARIANT ConsultedInOrder
 INVARIANT OneDecision
 INVARIANT NothingForExit
-INVARIANT ViaExact
 INVARIANT Answered
-INVARIANT ViaNeverRefused
